@@ -40,15 +40,25 @@ const WorldExtSrc = `package wext
 
 import "%MOD%/wdeep"
 
-// HoldS and HoldD hold members of types from a package the setup file does not import.
+// hid is a type the generated package cannot write down.
+type hid int
+
+// HoldS and HoldD hold members of types from a package the setup file does not import,
+// and members whose types cannot be named outside this package.
 type HoldS struct {
 	In wdeep.TS
 	K  int
+	Hs []hid
+	T  int
+	Hp *hid
 }
 
 type HoldD struct {
 	In wdeep.TD
 	K  int
+	Hs []hid
+	T  hid
+	Hp *hid
 }
 
 // XIn is an imported struct with an unexported member.
@@ -122,6 +132,7 @@ type SrcA struct {
 	W WInt
 	L []int
 	u int
+	_ int
 	c int
 	H wext.HoldS
 	Q wdeep.TS
@@ -185,6 +196,17 @@ type DstD struct {
 	Z int
 }
 
+// DstE holds a struct member of the very type the source has (copyable as a
+// whole) which itself has a struct member.
+type DstE struct {
+	A int
+	_ int
+	D Deep
+	_ [2]byte
+	K int
+}
+
+func CvNIn(n NIn) NIn          { return NIn{X: n.X + 1, Y: n.Y} }
 func CvII(i int) int           { return i + 1 }
 func CvIS(i int) string        { return "s" }
 func CvPI(p *int) int          { return *p }
@@ -201,10 +223,10 @@ var NotAFunc = 1
 `
 
 // WorldRoots are the (destination, source) root pairs explored.
-var WorldRoots = [][2]string{{"DstA", "SrcA"}, {"DstB", "SrcA"}, {"DstC", "SrcA"}, {"DstD", "SrcA"}}
+var WorldRoots = [][2]string{{"DstA", "SrcA"}, {"DstB", "SrcA"}, {"DstC", "SrcA"}, {"DstD", "SrcA"}, {"DstE", "SrcA"}}
 
 // WorldFuncs are the converter candidates named by :conv cases.
-var WorldFuncs = []string{"CvII", "CvIS", "CvPI", "CvIE", "CvNI", "CvPN", "CvSI", "CvNN", "CvTwo", "CvNone", "CvBad", "NotAFunc", "Missing", "wext.XConv"}
+var WorldFuncs = []string{"CvII", "CvIS", "CvPI", "CvIE", "CvNI", "CvPN", "CvSI", "CvNN", "CvNIn", "CvTwo", "CvNone", "CvBad", "NotAFunc", "Missing", "wext.XConv"}
 
 // WorldChecked is the type-checked world.
 type WorldChecked struct {
@@ -439,6 +461,14 @@ func (w *WorldChecked) Table() string {
 	}
 	fmt.Fprintf(&sb, "WHasStringV == {%s}\n", strings.Join(strv, ", "))
 	fmt.Fprintf(&sb, "WSlices == {%s}\n", strings.Join(slices, ", "))
+	// types the generated package can write down: a defined type of another package has to be exported
+	var nameable []string
+	for _, a := range snapshot {
+		if w.canName(w.ids[a]) {
+			nameable = append(nameable, q(a))
+		}
+	}
+	fmt.Fprintf(&sb, "WNameable == {%s}\n", strings.Join(nameable, ", "))
 	fmt.Fprintf(&sb, "WStructs == %s\n", strings.Join(structs, " @@ "))
 	fmt.Fprintf(&sb, "WFuncs == %s\n", strings.Join(funcs, " @@ "))
 	// lower-casing table for every name of the world and for pattern spellings
@@ -471,6 +501,22 @@ func (w *WorldChecked) Table() string {
 	fmt.Fprintf(&sb, "WRoots == {%s}\n", strings.Join(roots, ", "))
 	sb.WriteString("====\n")
 	return sb.String()
+}
+
+func (w *WorldChecked) canName(t types.Type) bool {
+	switch x := t.(type) {
+	case *types.Pointer:
+		return w.canName(x.Elem())
+	case *types.Slice:
+		return w.canName(x.Elem())
+	case *types.Array:
+		return w.canName(x.Elem())
+	case *types.Map:
+		return w.canName(x.Key()) && w.canName(x.Elem())
+	case *types.Named:
+		return x.Obj().Pkg() == nil || x.Obj().Pkg() == w.Pkg || x.Obj().Exported()
+	}
+	return true
 }
 
 func tlaBool(b bool) string {
